@@ -59,10 +59,10 @@ impl Prop for C17 {
         f.push(Family::new(
             "tagged",
             Mode::Full,
-            "lines '<word> <lit> <op> <lit> <word> # <comment>' with words from [none, abc, şişe, 日本, 😀😀, İı] (multi-byte before and between tokens), literals from [7, 12,5, 1.000], operators + - * /, comments from [none, c, ş 5, 日本 december]: each decimal literal, each operator and the comment is reported with its own kind covering exactly its characters",
+            "lines '<word> <lit> <op> <lit> <word> # <comment>' with words from [none, abc, şişe, 日本, 😀😀, İı] (multi-byte before and between tokens), literals from [7, 12,5, 1.000, -3, 0x1F, 0XFF, 0b101, 0o17], operators + - * /, comments from [none, c, ş 5, 日本 december]: each number literal (prefix and sign included), each operator and the comment is reported with its own kind covering exactly its characters",
             move |ch| {
                 let words = ["", "abc", "şişe", "日本", "😀😀", "İı"];
-                let lits = ["7", "12,5", "1.000"];
+                let lits = ["7", "12,5", "1.000", "-3", "0x1F", "0XFF", "0b101", "0o17"];
                 let comments = ["", "c", "ş 5", "日本 december"];
                 let w1 = *ch.pick(&words);
                 let a = *ch.pick(&lits);
